@@ -11,8 +11,9 @@ from vlib import (AU_INC, UBSAN_ENV, Driver, cxx, finish, kv, pmap, prove, rng_f
 
 PROP = "C06"
 ASSUME = [
-    "C06_formula carries the explicit hypothesis DoubleLeOneOnlyForOne (an integer magnitude evaluates to a double <= 1.0 only if "
-    "it is ONE); it is validated by every integer ratio of this run and by C11's bit-exact float correspondence",
+    "C06_formula assumes well-formed prime bases (2 <= p < 2^64, Mag.PrimesOK: what Prime<N>'s static_assert guarantees); the former "
+    "float-pipeline hypothesis DoubleLeOneOnlyForOne is now a theorem (magAsDoubleLeOne_false: every rounding step of the long-double "
+    "pipeline keeps a value >= 2 at least 2), about the Flt/rne model that C11 ties bit-exactly to the compilers",
     "arithmetic reps only (no complex / user-defined reps)",
 ]
 INTS = ["i8", "u8", "i16", "u16", "i32", "u32", "i64", "u64"]
